@@ -125,7 +125,7 @@ func cmdCase(g *vh.Gen, s string) string {
 var garbageLines = []string{"", " ", "HEL", "QUI", "FOO bar", "HELLO", "SEND x", "SOML", "EXPN list", "HELP", "TURN", "VRFY bob", "NOOP", "noop  ",
 	"DATA now", "RCPT", "RCPT T", "RCPT TO", "RCPT FROM:<a@b.com>", "MAIL", "MAIL TO:<a@b.com>", "MAIL FROM:a@b.com", "MAIL FROM:<a@b.com> SIZE=",
 	"MAIL FROM:<a@b.com> FOO", "STARTTLS", "AUTH PLAIN", "AUTH PLAIN abc", "AUTH PLAIN a b", "AUTH CRAM-MD5", "AUTH plain x",
-	"\xc5\xbfEND x", "QU\xc4\xb1T", "MA\xc4\xb1L FROM:<a@b.com>", "\xff\xfe\x00\x01binary", "RSET", "RSET extra", "HELO", "EHLO", "HELO  two words",
+	"EHLO \t", "HELO \t \t", "ehlo \v", "HELO \f", "\xc5\xbfEND x", "QU\xc4\xb1T", "MA\xc4\xb1L FROM:<a@b.com>", "\xff\xfe\x00\x01binary", "RSET", "RSET extra", "HELO", "EHLO", "HELO  two words",
 	"   leading", "DATA", "QUIT now",
 	"MAIL FROM:<\"a>b\"@c.org>", "MAIL FROM:<a\\>b@c.org>", "MAIL FROM:<a@b.org> AUTH=<>", "MAIL FROM:<a@b.org> SIZE=<>", "MAIL FROM:<a@b.org> SIZE=5 SIZE=99999999",
 	"MAIL FROM:<a@b.org> size=7 Size=8", "MAIL FROM:<a@b.org>  SIZE=5", "MAIL FROM:<a@b.org> SIZE=5 ", "MAIL FROM:<a@b.org> X", "MAIL FROM:<a@b.org> X=1 garbage",
@@ -241,7 +241,7 @@ func GenDialogue(g *vh.Gen, c Cfg, pool []string, o Opts) []byte {
 		line("RSET")
 	}
 	if g.Chance(0.92) {
-		line(cmdCase(g, g.Pick("HELO", "EHLO")) + " " + g.Pick("client.example", "[10.0.0.1]", "host extra words", "h"))
+		line(cmdCase(g, g.Pick("HELO", "EHLO")) + " " + g.Pick("client.example", "[10.0.0.1]", "host extra words", "h", "client.example", "[10.0.0.1]", "h", "\t", "\t \t", "\v", "\f x", "x\ty"))
 	}
 	if g.Chance(0.1) {
 		line("AUTH LOGIN")
